@@ -221,6 +221,11 @@ class PandasModelBase(
         return res
 
     def _coalesce(self, a, b):
+        # where / if_else / mapv / concat hand back numpy arrays: columns, not scalars
+        if isinstance(a, numpy.ndarray):
+            a = self.pd.Series(a)
+        if isinstance(b, numpy.ndarray):
+            b = self.pd.Series(b)
         a_is_series = isinstance(a, self.pd.Series)
         b_is_series = isinstance(b, self.pd.Series)
         if (not a_is_series) and (not b_is_series):
